@@ -3,18 +3,20 @@
 (*  hellos   n ClientHello datagrams from n distinct addresses: SrvCH is stateless, so the    *)
 (*           tables hold 0 handshakes and 0 sessions afterwards and each hello got one reply  *)
 (*  cookie   a ClientAck whose cookie was minted for another address / port / client key / *)
-(*           under the previous cookie key: ckOK of SrvCA is false, nothing is allocated      *)
+(*           under the previous cookie key / by another server instance (IPv4, IPv6 and         *)
+(*           IPv4-mapped source addresses): ckOK of SrvCA is false, nothing is allocated         *)
 (*  hprobe   a datagram of class c sent to a hidden-mode server: only class "fresh-hr" (a     *)
-(*           fresh well-formed hidden request made with the server's KEM key) is answered     *)
+(*           fresh well-formed hidden request made with the server's KEM key) is answered; a     *)
+(*           request stamped in the future or more than the window in the past is not fresh      *)
 EXTENDS Integers, Sequences, TLC, Json
 Trace == ndJsonDeserialize("trace.ndjson")
 VARIABLES l, bad
 Ev == Trace[l]
 Good(e) ==
     CASE e.ev = "hellos" -> e.handshakes = 0 /\ e.sessions = 0 /\ e.replies = e.n
-      [] e.ev = "cookie" -> IF e.class = "genuine" THEN e.allocated = 1 /\ e.replies = 1
+      [] e.ev = "cookie" -> IF e.class \in {"genuine", "genuine-v6", "genuine-v4mapped"} THEN e.allocated = 1 /\ e.replies = 1
                             ELSE e.allocated = 0 /\ e.replies = 0
-      [] e.ev = "hprobe" -> IF e.class = "fresh-hr" THEN e.replies = 1 ELSE e.replies = 0
+      [] e.ev = "hprobe" -> IF e.class \in {"fresh-hr", "hr-skew-fresh"} THEN e.replies = 1 ELSE e.replies = 0
       [] OTHER -> FALSE
 TInit == l = 1 /\ bad = 0
 TNext == /\ l <= Len(Trace) /\ l' = l + 1
